@@ -226,12 +226,15 @@ POS_STATEMENTS = {
     "call-recursive-functional": "call zfrec();",
     "expr-recursive-functional": "declare local var.zx BOOL; set var.zx = zfexp();",
     "include-self": 'include "zself";',
+    "goto-backward": 'zlbl:\nset req.http.G = req.http.G "g";\ngoto zlbl;',
+    "concat-recursive-functional": "set req.http.C = zfcat();",
 }
 
 POS_PRELUDE = (
     "sub zrec { call zrec; }\n"
     "sub zfrec BOOL { call zfrec(); return true; }\n"
     "sub zfexp BOOL { declare local var.zy BOOL; set var.zy = zfexp(); return true; }\n"
+    'sub zfcat STRING { return "a" zfcat(); }\n'
 )
 
 T_ = "!req.http.Nope"      # a condition that holds
